@@ -223,4 +223,24 @@ theorem implements_scan_unsorted_counterexample :
   · exact ⟨⟨[66], 1, 1⟩, by simp, rfl, rfl⟩
   · exact ⟨⟨[57, 46, 97], 2, 1⟩, by simp, rfl, rfl⟩
 
+open LlgoVerif.Face in
+/-- **A defined func type is identified with its underlying func type** (pinned tree): for `T` the
+    descriptor of `type F func() int` and `V` that of `func() int` (distinct addresses, same `$f`
+    type) `MatchesClosure(T, V)` is true.  Replayed natively and end to end
+    (findings `matchesclosure:named-func-type`, `e2e:named-func-type-identified-with-underlying`). -/
+theorem matchesClosure_named_counterexample :
+    matchesClosure false { id := 1, closure := true, field0 := 7, named := true } (some { id := 2, closure := true, field0 := 7 }) = true := by
+  decide
+
+open LlgoVerif.Face in
+/-- with `fixes/C07-3.diff` the test is the intended one, for ALL descriptors: the same descriptor, or
+    two UNNAMED closure types over the same func type -/
+theorem matchesClosure_fixed_spec (t v : Desc) :
+    matchesClosure true t (some v) = true ↔
+      (t.id = v.id ∨ (v.closure = true ∧ t.named = false ∧ v.named = false ∧ t.field0 = v.field0)) := by
+  unfold matchesClosure
+  by_cases h1 : t.id = v.id
+  · simp [h1]
+  · cases hc : v.closure <;> cases hn : t.named <;> cases hm : v.named <;> simp [h1, hc, hn, hm]
+
 end LlgoVerif.Types
